@@ -48,6 +48,9 @@ let show_obs = function
   | OStaleDone -> "sdone"
   | OStaleRejected -> "srej"
   | OStaleNoHandle -> "snone"
+  | ODump vs ->
+      let l = List.sort compare (List.map int_of_n vs) in
+      "V[" ^ String.concat "," (List.map string_of_int l) ^ "]"
 
 let rec split_at_semi acc = function
   | [] -> (List.rev acc, [])
@@ -78,6 +81,7 @@ let trace_case ws =
     | ["rg"; n] -> ERegular (path n)
     | ["c"] -> ECommit
     | ["cb"] -> ECommitBump
+    | ["dump"] -> EDump
     | ["d"] -> EDrop
     | "s" :: rest -> EStale (ev rest)
     | _ -> failwith "bad event" in
